@@ -311,8 +311,29 @@ def c13(ck):
                          nontrivial=lambda c, o: c != "-"))
     # sessions with handler output and Cli::write at arbitrary points: framing of every Enter / write call
     m = 6000 if thorough else 1200
-    ses = [gen.rand_session(rng, 25) for _ in range(m)]
-    ck.run_family(Family("session-frames", "ses", ses, shrink=core.shrink_ops_line(4), decisive=False,
+    ses = [gen.rand_session_w1(rng, 25) for _ in range(m)]
+
+    def oracle_view(case, io):
+        v = drv_run("termchk", [io])[0]
+        return None if v == "ok" else "after application output the terminal does not show prompt + line with the cursor at the editor position: " + v
+
+    def oracle_view_batch(cases, outs):
+        return dict(zip(cases, drv_run("termchk", outs)))
+
+    try:
+        _impl = core.run_engine(ck.binaries("hac", "debug"), "ses", ses)
+        _verdict = oracle_view_batch(ses, _impl)
+    except Broken as b:
+        ck.broken(b)
+        _verdict = {}
+
+    def oracle_fast(case, io):
+        v = _verdict.get(case)
+        if v is None or v != "ok":
+            return oracle_view(case, io)
+        return None
+
+    ck.run_family(Family("session-frames", "ses", ses, shrink=core.shrink_ops_line(4), decisive=False, oracle=oracle_fast,
                          project=lambda o: [(s["r"], s["sink"].replace(",F", "").replace("F,", "")) for s in (parse_steps(o) or [])] or o,
                          nontrivial=lambda c, o: "w:" in c or "0d" in c))
     return ck.finish(trusted=TB_COMMON, rule="writer-frame: random texts (LF, CR LF, CR, empty) split over write_str/writeln_str/uwrite!/write! calls inside "
@@ -826,10 +847,13 @@ def c11(ck):
     dcases, dspec_in = [], []
     for k, s_ in enumerate(sets):
         vis = declgen.visible_names(s_)
-        for _ in range(60 if thorough else 25):
+        fulls = list(vis) + ["help"]
+        for it in range((60 if thorough else 25) + len(fulls)):
             pool = vis + ["help"]
             base = rng.choice(pool) if pool and rng.randrange(8) else "zz"
             w = base[:rng.randrange(1, len(base) + 1)]
+            if it < len(fulls):
+                base = w = fulls[it]
             lead = " " * rng.choice([0, 0, 1])
             text = (lead + w).encode("utf-8")
             capx = len(text) + rng.choice([0, 1, 2, 3, 5, 8, 30])
@@ -957,6 +981,22 @@ def c12(ck):
             lines.append("help " + declgen.q(nm))
             lines.append(declgen.q(nm) + " -h")
         lines.append("help nope")
+        for e in declgen.set_enums(s_):
+            for c_ in e["cmds"]:
+                if c_["sub"] is None:
+                    continue
+                valued = [a for a in c_["args"] if a["kind"] == "opt"]
+                flags = [a for a in c_["args"] if a["kind"] == "flag"]
+                subn = [declgen.cmd_name(x) for x in c_["sub"]["enum"]["cmds"]] or ["x"]
+                nm = declgen.cmd_name(c_)
+                def oname(a):
+                    return ("--" + declgen.arg_long(a)) if declgen.arg_long(a) else ("-" + declgen.arg_short(a))
+                for v_ in valued[:2]:
+                    for f_ in flags[:2]:
+                        for sn in subn[:2]:
+                            lines.append(" ".join(declgen.q(x) for x in [nm, oname(v_), oname(f_), sn, "--help"]))
+                            lines.append(" ".join(declgen.q(x) for x in ["help", nm, oname(v_), oname(f_), sn]))
+                            lines.append(" ".join(declgen.q(x) for x in [nm, oname(f_), oname(v_), "val", sn, "-h"]))
         for _ in range(40 if thorough else 12):
             e = rng.choice(declgen.set_enums(s_))
             t = declgen.rand_cmd_tokens(rng, e)
@@ -1058,33 +1098,48 @@ def c16(ck):
             if st is None:
                 reason = ("crash", "implementation crashed under feature set %s: %s" % (fs, io[:200]))
             else:
-                mst = parse_steps(mo)
-                pj = lambda S: [(x["r"], x["text"], x["cur"], x["calls"], x["sink"].replace(",F", "").replace("F,", "")) for x in S]
-                if mst is None or pj(st) != pj(mst):
-                    reason = ("diff", "feature set %s: implementation and model (configured alike) differ" % fs)
-                # direct oracles
+                # direct oracles first
                 u = uses(c)
-                if reason is None and not has("h"):
-                    # Up / Down must do nothing: find the steps right after the arrow's final byte
+                if not has("h"):
                     k = 1
                     for op in c.split(" ", 4)[4].split(";"):
                         if op.startswith("b:"):
                             nb = len(op[2:]) // 2
-                            if op[2:] in ("1b5b41", "1b5b42"):
+                            if op[2:] in ("1b5b41", "1b5b42") and k + 2 < len(st):
                                 s_ = st[k + 2]
-                                prev = st[k - 1] if k >= 1 else None
-                                if s_["sink"] != "-" or (prev and (s_["text"], s_["cur"]) != (prev["text"], prev["cur"])):
-                                    reason = ("oracle", "history off: Up/Down changed the line or wrote to the terminal (step %d)" % (k + 2))
+                                prev = st[k - 1]
+                                if s_["sink"] != "-" or (s_["text"], s_["cur"]) != (prev["text"], prev["cur"]):
+                                    reason = ("oracle", "history off: Up/Down changed the line or wrote to the terminal (step %d: line %s -> %s, sink %s)" % (k + 2, prev["text"], s_["text"], s_["sink"]))
                             k += nb
                         elif op[0] in "wp":
                             k += 1
-                if reason is None and not has("h") and not u["h"] or reason is None and not has("a") and not u["a"]:
-                    pass
+                if reason is None and not has("a"):
+                    k = 1
+                    for op in c.split(" ", 4)[4].split(";"):
+                        if op.startswith("b:"):
+                            nb = len(op[2:]) // 2
+                            if op[2:] == "09" and k < len(st):
+                                s_, prev = st[k], st[k - 1]
+                                if s_["sink"] != "-" or (s_["text"], s_["cur"]) != (prev["text"], prev["cur"]):
+                                    reason = ("oracle", "autocomplete off: Tab changed the line or wrote to the terminal (step %d)" % k)
+                            k += nb
+                        elif op[0] in "wp":
+                            k += 1
+                if reason is None and not has("c"):
+                    # help lines are delivered to the handler like any other command: `help...` / `... --help` lines must produce a call or a parse error, never help text
+                    if c.startswith("24 32 1 raw b:") and ";b:09;b:0d;" in c:
+                        nline = len(c.split("b:")[1].split(";")[0]) // 2
+                        idx = 1 + nline + 1
+                        if idx < len(st) and st[idx]["calls"] == "-":
+                            reason = ("oracle", "help off: the help-shaped line %s was not delivered to the handler" % c.split("b:")[1].split(";")[0])
                 if reason is None and ((has("a") or not u["a"]) and (has("h") or not u["h"]) and has("c")):
-                    # nothing of the disabled facilities is used: behaviour must equal the full build
                     bst = parse_steps(bo)
                     if bst is not None and [(x["r"], x["text"], x["cur"], x["calls"], x["sink"]) for x in st] != [(x["r"], x["text"], x["cur"], x["calls"], x["sink"]) for x in bst]:
                         reason = ("oracle", "feature set %s differs from the full build on a session that does not use the disabled facility" % fs)
+                mst = parse_steps(mo)
+                pj = lambda S: [(x["r"], x["text"], x["cur"], x["calls"], x["sink"].replace(",F", "").replace("F,", "")) for x in S]
+                if reason is None and (mst is None or pj(st) != pj(mst)):
+                    reason = ("diff", "feature set %s: implementation and model (configured alike) differ" % fs)
                 nontriv += 1
             if reason and bad < 2:
                 bad += 1
